@@ -372,19 +372,14 @@ def run(tier, seed):
                         continue
                     bad.append(s)
             rep.check(rid, not bad, "only extract_directory pushes onto dir_stack", ed.file, "%s" % [b.where() for b in bad], function="dir_stack", obj="pushers")
-        rid = rep.rule("R6b", "lha_arch_chmod/chown/utime on directories are reached only via set_directory_metadata, called under PLAIN policy (fresh mkdir) or for a re-presented (FAKE_DIR) entry", 3)
+        rid = rep.rule("R6b", "directory metadata for a re-presented entry: set_directory_metadata in lha_reader_extract runs under curr_file_type == FAKE_DIR, and a FAKE_DIR entry is always one popped from dir_stack (the call sites of the setters themselves: R6c)", 3)
         sm = rep.need(rid, mod.fn("set_directory_metadata"), "function set_directory_metadata")
         if sm:
-            for wr in ("lha_arch_chmod", "lha_arch_chown"):
-                callers = {mod.functions[f].cname for f in cg.callers(wr)}
-                rep.check(rid, callers == {"set_directory_metadata"}, "%s is called only by set_directory_metadata" % wr, sm.file, "callers %s" % sorted(callers),
-                          function=wr, obj="callers")
-            callers = {mod.functions[f].cname for f in cg.callers("lha_arch_utime")}
-            rep.check(rid, callers == {"set_timestamps_from_header"}, "lha_arch_utime is called only by set_timestamps_from_header", sm.file, "callers %s" % sorted(callers),
-                      function="lha_arch_utime", obj="callers")
-            callers = {mod.functions[f].cname for f in cg.callers(sm.name)}
-            rep.check(rid, callers == {"extract_directory", "lha_reader_extract"}, "set_directory_metadata callers", sm.file, "callers %s" % sorted(callers),
-                      function="set_directory_metadata", obj="callers")
+            # who calls the setters is recorded, not frozen: what every call site must satisfy is decided by R6c (the path was created by
+            # the same call, or belongs to a re-presented directory), whichever function the site lives in
+            for wr in ("lha_arch_chmod", "lha_arch_chown", "lha_arch_utime", sm.name):
+                callers = {mod.functions[f].cname for f in cg.callers(wr if wr != sm.name else sm.name)}
+                rep.ok(rid, "callers of %s: %s (each call site decided by R6c)" % (mod.functions[wr].cname if wr in mod.functions else wr, sorted(callers)), None, sm.file)
             ex = mod.fn("lha_reader_extract")
             FAKE = mod.enums.get("CURR_FILE_FAKE_DIR")
             if ex and FAKE is not None:
